@@ -11,13 +11,13 @@ from ..model import cap, tls
 PROP = "C10"
 LEVEL = "exploration"
 
-PORTS = [443, 44330, 8443, 9443, 8080, 12345]
-P_OPTS = [None, ["8443"], ["8443", "9443"], ["443"], ["12345", "8080"]]
+PORTS = [443, 44330, 8443, 9443, 8080, 12345, 65535, 1]
+P_OPTS = [None, ["8443"], ["8443", "9443"], ["443"], ["12345", "8080"], ["65535"], ["1", "65535", "8443"]]
 M_OPTS = [None, [], ["443:8081"], ["443:8081", "8443:9000"], ["443:8081,", "8443:9000"], ["8443:9000"], ["44330:1"],
           ["443:8081", "44330:8082", "8443:8083", "9443:8084", "8080:8085", "12345:8086"],
           ["443:443"], ["8443:8443", "443:8081"], ["44330:44330", "8443:443"],
           # a pair whose left side is the CLIENT port of the first TLS (40001) / first QUIC (40171) flow: the client port never changes
-          ["40001:7", "443:8081"], ["40171:7", "40001:443"]]
+          ["40001:7", "443:8081"], ["40171:7", "40001:443"], ["65535:65534", "1:65535"]]
 
 
 def describe(tier):
@@ -51,17 +51,26 @@ def run_case(case):
     harness.load()
     seed = case["seed"]
     ipver, v, code = case["var"]
-    flows = []
-    for i, port in enumerate(PORTS):
-        flows.append(scen.tls_flow({"version": v, "suite": code, "history": [("c", 10 + i), ("s", 20 + i)]}, seed, i,
-                                   v6=(ipver == "v6"), server_port=port))
-    for i, port in enumerate(PORTS):
-        flows.append(scen.quic_flow({"suite": 0x1301, "script": [("c", [(0, 10 + i)]), ("s", [(0, 20 + i)])]}, seed, 10 + i,
-                                    v6=(ipver == "v6"), server_port=port))
-    ends = {f.id: f.ends for f in flows}
-    pkts = cap.stamp(scen.round_robin([f.pkts for f in flows]), ends)
+    def build(shared):
+        flows = []
+        for i, port in enumerate(PORTS):
+            flows.append(scen.tls_flow({"version": v, "suite": code, "history": [("c", 10 + i), ("s", 20 + i)]}, seed, i,
+                                       v6=(ipver == "v6"), server_port=port))
+        for i, port in enumerate(PORTS):
+            flows.append(scen.quic_flow({"suite": 0x1301, "script": [("c", [(0, 10 + i)]), ("s", [(0, 20 + i)])]}, seed, 10 + i,
+                                        v6=(ipver == "v6"), server_port=port))
+        if shared:
+            # the TLS connections to 443 and to 8443 come from ONE client endpoint (same address and source port) and go to one
+            # server address: they differ in the server port only; the same for the QUIC connections to 443 and 9443
+            for a, b in ((0, 2), (len(PORTS), len(PORTS) + 3)):
+                fa, fb = flows[a], flows[b]
+                fb.ends.client.ip, fb.ends.client.port, fb.ends.client.mac = fa.ends.client.ip, fa.ends.client.port, fa.ends.client.mac
+                fb.ends.server.ip, fb.ends.server.mac = fa.ends.server.ip, fa.ends.server.mac
+        ends = {f.id: f.ends for f in flows}
+        return flows, cap.stamp(scen.round_robin([f.pkts for f in flows]), ends)
+    built = {True: build(True), False: build(False)}
     keylog = []
-    for f in flows:
+    for f in built[True][0]:
         keylog += f.keylog()
     fails, nontriv, outcomes = [], [], set()
     n = 0
@@ -73,18 +82,22 @@ def run_case(case):
             args += ["-p"] + p
         if m is not None:
             args += ["-m"] + m
+        mapping = None
+        if m is not None:
+            mapping = {443: 8080} if not m else {int(x.replace(",", "").split(":")[0]): int(x.replace(",", "").split(":")[1]) for x in m}
+        # connections that differ in the server port only stay apart in the output only if the mapping keeps their ports apart
+        # (the documented default sends every unlisted port to 8080): otherwise the capture with distinct client endpoints is used
+        shared = mapping is None or (mapping.get(443, 8080) != mapping.get(8443, 8080) and mapping.get(443, 8080) != mapping.get(9443, 8080))
+        flows, pkts = built[shared]
         res = scen.run(pkts, keylog, args)
         n += 1
-        cfg = {"p": " ".join(p or []), "m": None if m is None else " ".join(m)}
+        cfg = {"p": " ".join(p or []), "m": None if m is None else " ".join(m), "shared_client_endpoint": shared}
         try:
             an = scen.analyse(res)
         except scen.ExportError as e:
             fails.append({"kind": e.kind, "sig": cfg, "detail": e.detail})
             continue
         selected = {443, 44330} | {int(x) for x in (p or [])}
-        mapping = None
-        if m is not None:
-            mapping = {443: 8080} if not m else {int(x.replace(",", "").split(":")[0]): int(x.replace(",", "").split(":")[1]) for x in m}
         seen_ports = set()
         ok_all = True
         for f in flows:
@@ -92,7 +105,8 @@ def run_case(case):
             want_port = sp if mapping is None else mapping.get(sp, 8080)
             sig = dict(cfg, flow=f.kind, server_port=sp)
             if f.kind == "tls":
-                convs = [c for c in an["tcp"].values() if c["client"] == f.ends.client.key()]
+                convs = [c for c in an["tcp"].values() if c["client"] == f.ends.client.key() and c["server"][0] == f.ends.server.ip
+                         and (c["c2s"], c["s2c"]) == (f.conn.plain["c"], f.conn.plain["s"])]
                 should = sp in selected
                 if not should:
                     if convs:
@@ -100,17 +114,16 @@ def run_case(case):
                         ok_all = False
                     continue
                 if len(convs) != 1:
-                    fails.append({"kind": "selected_flow_missing", "sig": sig, "detail": f"{len(convs)} conversations for the client endpoint"})
+                    fails.append({"kind": "selected_flow_missing", "sig": sig, "detail": f"{len(convs)} conversations of the client endpoint carry this connection's plaintext"})
                     ok_all = False
                     continue
                 c = convs[0]
                 got_port = c["server"][1]
-                if c["c2s"] != f.conn.plain["c"] or c["s2c"] != f.conn.plain["s"]:
-                    fails.append({"kind": "stream_mismatch", "sig": sig, "detail": "payload differs"})
-                    ok_all = False
+
             else:
+                mine = {p for _, p in f.conn.truth()}
                 ex = [(ts, s, d) for k, lst in an["udp"].items() for ts, s, d, pl, fr in lst
-                      if (s == f.ends.client.key() or d == f.ends.client.key()) and pl]
+                      if (s == f.ends.client.key() or d == f.ends.client.key()) and pl and pl in mine]
                 if not ex:
                     fails.append({"kind": "quic_flow_missing", "sig": sig, "detail": "no datagram for the client endpoint"})
                     ok_all = False
